@@ -11,14 +11,15 @@ cd "$WT" || exit 1
 # 1. change applied: suite passes (except demo), demo fails
 git checkout -q -- . ; git apply "$OUT/patch.diff" || { echo "patch does not apply"; exit 1; }
 cp "$OUT/seed_demo.rs" tests/seed_demo.rs
-cargo test --offline --lib --test integration > "$OUT/suite_with_change.log" 2>&1; SUITE=$?
-cargo test --offline --test seed_demo > "$OUT/demo_with_change.log" 2>&1; DEMO_WITH=$?
+# the baseline runner (process per test); a hanging racy test is terminated by the profile's slow-timeout
+cargo nextest run --workspace --no-fail-fast --tool-config-file pb:/w/lib/nextest.toml --profile pb --test-threads 8 --offline -E 'not test(seed_demo) and not binary(seed_demo)' < /dev/null > "$OUT/suite_with_change.log" 2>&1; SUITE=$?
+timeout 600 cargo test --offline --test seed_demo < /dev/null > "$OUT/demo_with_change.log" 2>&1; DEMO_WITH=$?
 # 2. change removed: demo passes
 git checkout -q -- src xs.nu Cargo.toml 2>/dev/null
-cargo test --offline --test seed_demo > "$OUT/demo_without_change.log" 2>&1; DEMO_WITHOUT=$?
+timeout 600 cargo test --offline --test seed_demo < /dev/null > "$OUT/demo_without_change.log" 2>&1; DEMO_WITHOUT=$?
 git apply "$OUT/patch.diff"
 echo "suite_with_change_exit=$SUITE demo_with_change_exit=$DEMO_WITH demo_without_change_exit=$DEMO_WITHOUT"
-grep -E "^test result|FAILED|failed" "$OUT/suite_with_change.log" | head -5
+grep -E "Summary|FAIL|TIMEOUT" "$OUT/suite_with_change.log" | head -5
 cat > "$OUT/result.env" <<EOT
 suite_with_change_exit=$SUITE
 demo_with_change_exit=$DEMO_WITH
